@@ -81,7 +81,8 @@ def Good (cfg : Cfg) : E → Bool
   | .prod _ (c :: cs) => Good cfg c && decide (5 ≤ outLv c PREC_PRODUCT) && goodFactors cfg cs
   | .quot _ a b => Good cfg a && Good cfg b && decide (5 ≤ outLv a PREC_PRODUCT)
                     && (forceDen cfg b || decide (6 ≤ outLv b PREC_PRODUCT))
-  | .pow _ a b => Good cfg a && Good cfg b && decide (7 ≤ outLv a PREC_POWER) && decide (6 ≤ outLv b PREC_POWER)
+  | .pow _ a b => Good cfg a && Good cfg b && (powBaseParen a (printF cfg a PREC_POWER) || decide (7 ≤ outLv a PREC_POWER))
+                   && decide (6 ≤ outLv b PREC_POWER)
   | .cmp _ a b => Good cfg a && Good cfg b && decide (4 ≤ outLv a PREC_COMPARISON) && decide (4 ≤ outLv b PREC_COMPARISON)
   | .lnot a => Good cfg a && decide (3 ≤ outLv a PREC_UNARY)
   | .land [] => false
